@@ -108,7 +108,7 @@ pub fn run(ctx: &Ctx) -> Outcome {
     {
         use super::solo_drivers::*;
         use crate::solo::threads::*;
-        let tc = ThreadsCfg { base_depth: ctx.tier.pick(1, 3), preemption_bound: ctx.tier.pick(Some(2), Some(3)), max_runs_per_case: ctx.tier.pick(2_000, 100_000), with_suffix: false, triples: true, doubles: true };
+        let tc = ThreadsCfg { base_depth: ctx.tier.pick(1, 3), preemption_bound: ctx.tier.pick(Some(2), Some(3)), max_runs_per_case: ctx.tier.pick(2_000, 100_000), with_suffix: false, triples: true, doubles: true, budget_share: 0.3 };
         explore_threads(ctx, &tx_flow(ctx.tier, 8, 32, 0), &tc, &mut out);
         explore_threads(ctx, &rx(ctx.tier, 2, vec![MSS], 0), &tc, &mut out);
         explore_threads(ctx, &close(ctx.tier, 0), &tc, &mut out);
